@@ -927,7 +927,8 @@ class Engine:
             emit_time = round(emit_time, self.global_time_precision)
 
         while self.global_time < end_time or force_complete:
-            full_step = math.inf
+            # time of the next event: the earliest end of an interval
+            next_time = math.inf
             self._remove_deleted_processes()
 
             # processes at quiet paths don't meet their execution condition,
@@ -971,25 +972,20 @@ class Engine:
                             self.front[path]['time'] = future
                             self.front[path]['update'] = update
 
-                            # absolute timestep
-                            timestep = future - self.global_time
-                            full_step = min(full_step, timestep)
+                            next_time = min(next_time, future)
                         else:
                             # mark this path "quiet" so its time can be advanced
                             self.front[path]['update'] = (EmptyDefer(), store)
                             quiet_paths.append(path)
                     else:
-                        # absolute timestep
-                        timestep = future - self.global_time
-                        full_step = min(full_step, timestep)
+                        next_time = min(next_time, future)
 
                 else:
                     # don't shoot past processes that didn't run this time
-                    process_delay = process_time - self.global_time
-                    full_step = min(full_step, process_delay)
+                    next_time = min(next_time, process_time)
 
             # apply updates based on process times in self.front
-            if full_step == math.inf:
+            if next_time == math.inf:
                 # every process was polled and none met its update
                 # condition, and no update is in flight: nothing can
                 # change before end_time
@@ -999,13 +995,13 @@ class Engine:
                 for quiet in quiet_paths:
                     self.front[quiet] = empty_front(self.global_time)
 
-            elif self.global_time + full_step <= end_time:
+            elif next_time <= end_time:
                 # at least one process ran within the interval
-                # increase the time, apply updates, and continue
-                self.global_time += full_step
-                if self.global_time_precision is not None:
-                    self.global_time = round(
-                        self.global_time, self.global_time_precision)
+                # increase the time, apply updates, and continue.
+                # Event times are compared and assigned directly:
+                # global_time + (future - global_time) may differ from
+                # future in floating point and overshoot end_time.
+                self.global_time = next_time
 
                 # advance all quiet processes to current time
                 for quiet in quiet_paths:
